@@ -74,9 +74,12 @@ def check_structure(ctx):
         cut = form.apply("getitem", [base, ("slice", Rat.const(0), Rat.const(-1), "None")])
         has_clim = form.apply("cmp_ne", [S("None") - S("self._clim"), Rat.const(0)])
         ok = False
+        # the same list written through the (separately checked) clim-free count: self._inputs[0:self._get_num_inputs()]
+        counted = form.apply("getitem", [S("self._inputs"), ("slice", Rat.const(0), form.apply("self._get_num_inputs", []), "None")])
+        alt = form.apply("map", [form.apply("attr:" + attr, [form.apply("elem", [counted])]), counted])
         for o in outs:
             v = o.value
-            if isinstance(v, Rat) and v.equals(form.apply("ifexp", [has_clim, cut, base])):
+            if isinstance(v, Rat) and (v.equals(form.apply("ifexp", [has_clim, cut, base])) or (len(outs) == 1 and not o.conds and v.equals(alt))):
                 ok = True
         if not ok and len(outs) == 2:
             with_c = [o for o in outs if q.has_cond(o.conds, lambda c_: c_.equals(has_clim), True)]
@@ -87,7 +90,9 @@ def check_structure(ctx):
     f = prog.own_method("verif.data.Data._get_num_inputs")
     outs = [o for o in symeval.Evaluator(m).run(f) if o.kind == "return"]
     want = form.apply("len", [S("self._inputs")]) - form.apply("cmp_ne", [S("None") - S("self._clim"), Rat.const(0)])
-    ctx.ob("C14.1", "verif.data.Data._get_num_inputs", len(outs) == 1 and outs[0].value.equals(want), "num_inputs = len(inputs) - (climatology present)",
+    no_clim = form.apply("cmp_eq", [S("None") - S("self._clim"), Rat.const(0)])
+    want2 = form.apply("len", [form.apply("ifexp", [no_clim, S("self._inputs"), form.apply("getitem", [S("self._inputs"), ("slice", Rat.const(0), Rat.const(-1), "None")])])])
+    ctx.ob("C14.1", "verif.data.Data._get_num_inputs", len(outs) == 1 and (outs[0].value.equals(want) or outs[0].value.equals(want2)), "num_inputs = len(inputs) - (climatology present)",
            loc=prog.loc(m, f), msg="_get_num_inputs returns %s" % [str(o.value) for o in outs])
     f = prog.own_method("verif.data.Data._get_num_inputs_with_clim")
     outs = [o for o in symeval.Evaluator(m).run(f) if o.kind == "return"]
